@@ -20,9 +20,10 @@ from traits.api import (Any, Dict, HasTraits, Int, List, Set, Tuple, Union, Unde
                         Uninitialized)
 from traits.trait_notifiers import StaticTraitChangeNotifyWrapper  # noqa: E402
 from traits.trait_list_object import TraitListObject  # noqa: E402
+from traits.trait_dict_object import TraitDictObject  # noqa: E402
 
 KINDS = ["KConst", "KListCopy", "KDictCopy", "KTraitList", "KTraitDict", "KTraitSet", "KFactory", "KMethod",
-         "KTuple", "KUnion", "KEvent"]
+         "KTuple", "KUnion", "KEvent", "KMethodInt"]
 MOD = 2305843009213693951
 
 
@@ -138,7 +139,7 @@ class World:
             shape = 5 if isinstance(v, TraitListObject) else 1
             return {"shape": shape, "parts": [[self.oid(v), self.content(v)]]}
         if isinstance(v, dict):
-            return {"shape": 2, "parts": [[self.oid(v), self.content(v)]]}
+            return {"shape": 6 if isinstance(v, TraitDictObject) else 2, "parts": [[self.oid(v), self.content(v)]]}
         if isinstance(v, (set, frozenset)):
             return {"shape": 3, "parts": [[self.oid(v), self.content(v)]]}
         if isinstance(v, tuple) and len(v) == 2 and isinstance(v[0], list) and type(v[1]) is int:
@@ -154,6 +155,13 @@ class World:
                 i = w.index_of(self)
                 w.counts[(i, name)] = w.counts.get((i, name), 0) + 1
                 return list(content)
+            return default
+
+        def counted_int_method(name, content):
+            def default(self):
+                i = w.index_of(self)
+                w.counts[(i, name)] = w.counts.get((i, name), 0) + 1
+                return content[0]
             return default
 
         def counted_factory(name, content):
@@ -188,6 +196,9 @@ class World:
             elif k == "KMethod":
                 ns[a] = List(Int)
                 ns["_%s_default" % a] = counted_method(n, c)
+            elif k == "KMethodInt":
+                ns[a] = Int(0)
+                ns["_%s_default" % a] = counted_int_method(n, c)
             elif k == "KTuple":
                 ns[a] = Tuple(List(Int, list(c)), Int(t["scalar"]))
             elif k == "KUnion":
@@ -204,6 +215,8 @@ class World:
                 ns2[a] = o["content"][0]
             elif o["how"] == "list":
                 ns2[a] = list(o["content"])
+            elif o["how"] == "method" and self.cfg[o["name"]]["kind"] in ("KConst", "KMethodInt"):
+                ns2["_%s_default" % a] = counted_int_method(o["name"], o["content"])
             elif o["how"] == "method":
                 ns2["_%s_default" % a] = counted_method(o["name"], o["content"])
             else:
@@ -225,7 +238,7 @@ class World:
         notifiers = ct._notifiers(False) or []
         static = any(isinstance(x, StaticTraitChangeNotifyWrapper) for x in notifiers)
         t = {"kind": "KEvent", "content": [], "scalar": 0, "doid": 0, "nnotif": len(notifiers), "static": static}
-        if ct.type == "event":
+        if ct.type == "event" or n is None or n < 0:      # "<name>_items" and trait_added traits
             return t
         dvt, dv = ct.default_value()
         declared = self.cfg.get(n)
@@ -252,7 +265,7 @@ class World:
             elif q == "Union._get_default_value":
                 t["kind"], t["content"] = "KUnion", list(declared["content"])
             else:
-                t["kind"] = "KMethod"
+                t["kind"] = "KMethodInt" if declared["kind"] in ("KConst", "KMethodInt") else "KMethod"
                 t["content"] = list(over["content"]) if (over and over["how"] == "method") else list(declared["content"])
         else:
             t["kind"], t["content"] = "KEvent", [-999]
@@ -296,7 +309,9 @@ class World:
     # ----- handlers
     def otc_handler(self, hid):
         def handler(obj, name, old, new):
-            self.logs.setdefault(id(obj), []).append([hid, self.name_code(name), self.content(old), self.content(new)])
+            c = self.name_code(name)
+            if 0 <= c < 999:        # an object-level handler also sees "<name>_items" / trait_added events: not value changes
+                self.logs.setdefault(id(obj), []).append([hid, c, self.content(old), self.content(new)])
         return handler
 
     def obs_handler(self, hid):
@@ -311,11 +326,11 @@ class World:
             return self.shadow[i][n]
         t = self.cfg[n]
         if type(self.insts[i]) is self.classes[1] and n in self.sub and self.sub[n]["how"] == "method":
-            return "KMethod"
+            return "KMethodInt" if t["kind"] in ("KConst", "KMethodInt") else "KMethod"
         return t["kind"]
 
     def payload(self, kind, content, scalar):
-        if kind == "KConst":
+        if kind in ("KConst", "KMethodInt"):
             return content[0]
         if kind in ("KDictCopy", "KTraitDict"):
             return dict_of(content)
@@ -368,6 +383,9 @@ class World:
                 v.add(x)
             elif isinstance(v, tuple) and isinstance(v[0], list):
                 v[0].append(x)
+        elif k == "Register" and op[2] == -2:
+            obj.on_trait_change(self.otc_handler(op[3]))          # no name: the object's own notifier list
+            self.regs[i].append([op[2], op[3]])
         elif k == "Register":
             if op[4]:
                 obj.observe(self.obs_handler(op[3]), a)
